@@ -22,6 +22,7 @@ type c12params struct {
 	States []string
 	Causes []string
 	WillQ  []int
+	Real   bool // the broker talks through the real transport.BaseConn (byte stream over the pipe) instead of the pipe's own Conn
 }
 
 func init() {
@@ -33,7 +34,7 @@ func init() {
 	})
 }
 
-var c12states = []string{"idle", "inbound-q1-open", "inbound-q2-open", "outbound-open", "blocked-on-token", "observer-queue-full"}
+var c12states = []string{"idle", "inbound-q1-open", "inbound-q2-open", "outbound-open", "blocked-on-token", "observer-queue-full", "blocked-in-send"}
 
 // causes that strike an accepted connection
 var c12causes = []string{"DISCONNECT", "drop", "read-error", "malformed-frame", "oversized-frame", "second-CONNECT", "server-only-packet",
@@ -63,6 +64,9 @@ func will(x *explore.X, pr c12params) {
 	if cause == "token-timeout" && state != "blocked-on-token" {
 		return // the token timeout can only strike a connection that is waiting for a token
 	}
+	if cause == "send-failure" && state == "blocked-in-send" {
+		return // a write that is blocked does not fail
+	}
 
 	vrt.Quiet(true) // observers and helper connect on the default schedule; exploration starts with the client under test
 	w := env.NewWorld(x, func(m *broker.MemoryBackend) {
@@ -74,6 +78,10 @@ func will(x *explore.X, pr c12params) {
 		}
 	})
 	w.Rec.KeepLog = true
+	w.Real = pr.Real
+	if pr.Real {
+		sig += " (over transport.BaseConn)"
+	}
 	srv := env.NewFakeServer()
 	w.Eng.Accept(srv)
 	creds := func(c *packet.Connect) *packet.Connect { c.Username, c.Password = "u", "pw"; return c }
@@ -105,6 +113,14 @@ func will(x *explore.X, pr c12params) {
 		if pkt.Type() == packet.DISCONNECT {
 			disconnectRead = true
 		}
+	}
+	// over the real BaseConn: a goroutine waiting in BaseConn.Close for the send mutex that a blocked write holds
+	// (identified by the caller of Close); the shutdown / take-over clauses are then consequences of that one fact
+	stalled := func() []string {
+		if !pr.Real || state != "blocked-in-send" {
+			return nil // a write only blocks in that state
+		}
+		return env.ClosersBehindBlockedWrite()
 	}
 	accepted := true
 	disconnectProcessed := false
@@ -180,6 +196,12 @@ func will(x *explore.X, pr c12params) {
 			w.Rec.HoldAcks = true
 			d.Send(env.Publish(5, "x", "in1", 1, false, false))
 			d.Send(env.Publish(6, "x", "in2", 1, false, false))
+		case "blocked-in-send":
+			// the client stops reading and its socket buffer is full: the broker's next write to it blocks
+			d.Send(env.Subscribe(2, packet.Subscription{Topic: "y", QOS: 0}))
+			w.Run(online, helper, d)
+			d.BEnd.Hold = true
+			helper.Pub("y", "out0", 0, false)
 		case "observer-queue-full":
 			// the online observer stops acknowledging: one message in flight (window 1), one in its queue (capacity 1)
 			online.NoAck = true
@@ -203,13 +225,14 @@ func will(x *explore.X, pr c12params) {
 		case "drop":
 			d.Drop()
 		case "read-error":
+			// the read that follows the next packet fails (packets that need no answer: the broker may be unable to write)
 			d.BEnd.FailReceive()
-			d.Send(packet.NewPingreq())
-			d.Send(packet.NewPingreq())
+			d.Send(env.Publish(0, "x", "noise", 0, false, false))
+			d.Send(env.Publish(0, "x", "noise", 0, false, false))
 		case "malformed-frame":
 			d.Raw([]byte{0x3f, 0x00}) // PUBLISH with QoS 3
 		case "oversized-frame":
-			d.BEnd.ReadLimit = 64
+			d.Conn.SetReadLimit(64)
 			big := env.Publish(0, "x", strings.Repeat("z", 100), 0, false, false)
 			d.Send(big)
 		case "second-CONNECT":
@@ -230,19 +253,25 @@ func will(x *explore.X, pr c12params) {
 				online.Flush()
 				w.Run(online, helper, d, n)
 			}
-			if n.Connack == nil || n.Connack.ReturnCode != 0 {
+			if (n.Connack == nil || n.Connack.ReturnCode != 0) && len(stalled()) == 0 {
 				x.Failf("takeover", "newcomer-not-accepted:"+sig, "the newcomer with the same client id was not accepted")
 			}
 		case "backend-close":
 			done := false
 			go func() { w.MB.Close(time.Minute); done = true }()
 			w.Run(online, helper, d)
-			if !done {
+			if !done && len(stalled()) == 0 {
 				x.Failf("shutdown-returns", "backend-close-blocked:"+sig, "MemoryBackend.Close has not returned at quiescence (threads: %v)", d.Live())
 			}
 		case "send-failure":
 			d.BEnd.FailSend(1, env.FailBefore)
 			d.Send(packet.NewPingreq())
+			if pr.Real {
+				// the PINGRESP is written by the flush timer, whose failure surfaces with the next write; a network
+				// that fails writes does not keep serving reads: the peer is gone
+				w.Run(online, helper, d)
+				d.Drop()
+			}
 		case "engine-close":
 			done := false
 			srv.Close()
@@ -294,6 +323,22 @@ func will(x *explore.X, pr c12params) {
 	want := 0
 	if accepted && !disconnectProcessed && cause != "engine-close" {
 		want = 1
+	}
+	if st := stalled(); len(st) > 0 {
+		if len(wills) != want {
+			seen := map[string]bool{}
+			for _, caller := range st {
+				if seen[caller] {
+					continue
+				}
+				seen[caller] = true
+				x.Failf("will-count", "close-waits-for-blocked-write:caller="+caller, "%s: the connection never ends and the will is handed to the backend %d time(s), expected %d: %s waits inside transport.BaseConn.Close for the send mutex, which a Send blocked in the carrier's Write holds (the peer does not read); only closing the carrier would release that write",
+					sig, len(wills), want, caller)
+			}
+		}
+		x.Event(fmt.Sprintf("%s|%s|stalled", cause, state))
+		x.Outcome("stalled")
+		return
 	}
 	if len(wills) != want {
 		x.Failf("will-count", fmt.Sprintf("%d-wills-want-%d:%s", len(wills), want, sig), "the will was handed to the backend %d time(s), expected %d (accepted=%v, DISCONNECT processed=%v, cause %s, state %s)\nbroker log: %v",
@@ -385,8 +430,9 @@ func runC12(r *report.Report) {
 		"timers >= 100 ms are manual: keep-alive expiry and token timeout are events; takeover, backend shutdown and faults are events at quiescence, reordered inside by the deviation bound",
 		"observer delivery clauses are evaluated only when the will count itself is right (delivery as such is C06/C11)")
 	causes := append(append([]string{}, c12causes...), c12pre...)
+	real := false
 	mk := func(states []string, cs []string, qs []int) string {
-		js, _ := json.Marshal(c12params{States: states, Causes: cs, WillQ: qs})
+		js, _ := json.Marshal(c12params{States: states, Causes: cs, WillQ: qs, Real: real})
 		return string(js)
 	}
 	st := explore.Explore(explore.Config{Harness: "C12.will", Params: mk(c12states, causes, []int{0, 1, 2}), Bound: 0, Workers: report.Workers(), Deadline: r.Deadline()})
@@ -400,6 +446,15 @@ func runC12(r *report.Report) {
 	st = explore.Explore(explore.Config{Harness: "C12.will", Params: mk(c12states, causes, qs), Bound: b, Workers: report.Workers(), Deadline: r.Deadline()})
 	r.AddExploration("causes-x-states-reordered", "history", fmt.Sprintf("the same combinations (will qos %v) with up to %d scheduling deviations inside each", qs, b), st,
 		"as above; every placement of the deviation(s) over the broker's scheduling points", "will-published")
+	// the same over the real transport.BaseConn (packet.Stream, buffered writer and flush timer, send / receive mutexes)
+	real = true
+	st = explore.Explore(explore.Config{Harness: "C12.will", Params: mk(c12states, causes, []int{0, 1, 2}), Bound: 0, Workers: report.Workers(), Deadline: r.Deadline()})
+	r.AddExploration("causes-x-states-over-baseconn", "history", fmt.Sprintf("%d causes x %d states x will qos {0,1,2} x retain x keep-alive, the broker's connection being a transport.BaseConn over a byte-stream view of the pipe; delay bound 0", len(causes), len(c12states)), st,
+		"as above; faults strike the carrier (read error, deadline expiry, write error, blocked write) and the real BaseConn has to turn them into a closed connection", "will-published")
+	st = explore.Explore(explore.Config{Harness: "C12.will", Params: mk(c12states, causes, qs), Bound: b, Workers: report.Workers(), Deadline: r.Deadline()})
+	r.AddExploration("causes-x-states-over-baseconn-reordered", "history", fmt.Sprintf("the same over transport.BaseConn (will qos %v) with up to %d scheduling deviations inside each", qs, b), st,
+		"as above", "will-published")
+	real = false
 	if r.Tier == "thorough" {
 		st = explore.Explore(explore.Config{Harness: "C12.will", Params: mk([]string{"idle", "inbound-q2-open", "outbound-open"}, c12causes, []int{1}), Bound: 2, Workers: report.Workers(), Deadline: r.Deadline()})
 		r.AddExploration("causes-x-states-reordered2", "history", "16 post-acceptance causes x 3 states (will qos 1) with up to 2 scheduling deviations inside each", st,
